@@ -5,6 +5,8 @@ HERE = os.path.dirname(os.path.dirname(os.path.abspath(__file__)))
 sys.path.insert(0, os.path.join(HERE, "tools"))
 from manifest_table import CHECKS, NOT_APPLICABLE  # noqa: E402
 
+SUFFIX = (" Further program families that were added against seeded defects (DESIGN.md section 9) and the exact bounds per tier are "
+          "reported in the `bounds`, `rule` and `assumptions` fields of the evidence file written by every run.")
 checks = []
 for cid, c in CHECKS.items():
     checks.append({
@@ -14,7 +16,7 @@ for cid, c in CHECKS.items():
         "evidence_file": f"/verif/evidence/{cid}.json",
         "replay_cmd_template": "bin/check --replay {path}",
         "engine": c["engine"],
-        "level_claimed": {"category": "model_checking", "text": c["text"], "design_ref": c["design_ref"]},
+        "level_claimed": {"category": "model_checking", "text": c["text"] + SUFFIX, "design_ref": c["design_ref"]},
         "level_note": c["note"],
         "technique": c["technique"],
     })
